@@ -32,7 +32,7 @@ RULE = ("small-scope sweep: all ordered pairs of (call, canonical argument) over
 ASSUMPTIONS = ["register map and write masks of the chip model follow the nRF24L01+ datasheet",
                "where docs and code disagree on an out-of-domain argument without any register becoming illegal "
                "(pa_level invalid: docs 'default 0 dBm' / code ValueError; crc negative: docs 'clamped' / code magnitude) both are accepted",
-               "non-plus chips: start/stop_carrier_wave are skipped (documented to overwrite configuration)",
+               "non-plus chips: start/stop_carrier_wave are skipped inside the histories (documented to overwrite configuration); a third of the non-plus runs end with the carrier test followed by the documented restore (`with nrf: pass`)",
                "addresses of 1..5 bytes only"]
 CLAUSES = {"encoding": "registers hold exactly the documented encoding; no foreign register/bit altered",
            "getters": "every getter returns the value in effect", "raises": "clamped or rejected as documented",
@@ -391,6 +391,34 @@ def _run(scn, w, res):
         if diffs:
             res.add("cache", {"kind": "not_restored_after_foreign_use", "regs": ",".join(d.split()[1] for d in diffs)},
                     "re-entering the `with` block after another object had re-programmed the radio left: %s (history %r)" % ("; ".join(diffs), names[-6:]))
+    # ---- non-plus chips: the carrier test overwrites configuration (documented); the documented way back is `with nrf: pass`
+    if not res.violations and not drv.is_plus_variant and scn["seed"] % 3 != 0 and not radio.r[6] & 0x90:     # (no carrier running already)
+        drv.__enter__()
+        established = radio.config_snapshot()
+        try:
+            drv.start_carrier_wave()
+            sim.advance(2_000_000)
+            drv.stop_carrier_wave()
+            drv.__enter__()
+        except SimAbort:
+            raise
+        except Exception as e:    # noqa: BLE001
+            res.add("raises", {"kind": "carrier_test_raised", "exc": type(e).__name__}, "carrier test + `with` restore raised %r (history %r)" % (e, names[-6:]))
+        else:
+            sim.count("nonplus_carrier_test_restored")
+            now = radio.config_snapshot()
+            diffs = []
+            for reg in CFG_REGS:
+                b_, a_ = established[reg], now[reg]
+                if reg == 0:
+                    b_, a_ = bytes([b_[0] & 0x7C]), bytes([a_[0] & 0x7C])     # (power and role are the carrier test's business)
+                if reg == 2:
+                    b_, a_ = bytes([b_[0] & 0x3E]), bytes([a_[0] & 0x3E])     # (in TX mode pipe 0 is open for acknowledgements)
+                if a_ != b_:
+                    diffs.append("reg 0x%02X radio=%s established=%s" % (reg, now[reg].hex(), established[reg].hex()))
+            if diffs:
+                res.add("cache", {"kind": "not_restored_after_carrier_test", "regs": ",".join(d.split()[1] for d in diffs)},
+                        "non-plus chip: start_carrier_wave(), stop_carrier_wave() and the documented `with nrf: pass` left: %s (history %r)" % ("; ".join(diffs), names[-6:]))
     res.nontrivial = changed
     import hashlib
     res.isig = hashlib.blake2b(repr((names, scn["plus"], scn["dirty"])).encode(), digest_size=8).hexdigest()
